@@ -201,16 +201,24 @@ impl SeqMap {
 /// Classifies one backend mutation under the collection prefix and decodes the
 /// abstract content. Returns None for objects outside the collection.
 pub fn classify(e: &Event, seqs: &mut SeqMap) -> Option<Value> {
-    if !e.op.is_mutation() {
-        return None;
-    }
     let rel = e.path.strip_prefix(PREFIX)?;
     let kind = match e.op {
         Op::Put => "put",
         Op::Delete => "delete",
+        Op::Get => "get",
+        Op::List => "list",
         _ => "other",
     };
-    let mut ev = json!({"e": "be", "kind": kind, "mode": e.mode, "res": e.res, "p": e.proc_, "path": rel});
+    // "pk": the call arrived at the store and is parked (scheduler mode); "be": a mutation was
+    // executed; "rd": a read was executed
+    let e_kind = if e.res == "parked" {
+        "pk"
+    } else if e.op.is_mutation() {
+        "be"
+    } else {
+        "rd"
+    };
+    let mut ev = json!({"e": e_kind, "kind": kind, "mode": e.mode, "res": e.res, "p": e.proc_, "path": rel});
     let o = ev.as_object_mut().unwrap();
     let payload = e.payload.as_deref();
     if let Some(idpart) = rel.strip_prefix("data/") {
@@ -306,6 +314,10 @@ pub fn classify(e: &Event, seqs: &mut SeqMap) -> Option<Value> {
 
 /// Full projected state of a collection through public APIs only.
 pub async fn observe(col: &Collection, max_id: u64) -> Value {
+    observe_with(col, max_id).await
+}
+
+async fn observe_with(col: &Collection, max_id: u64) -> Value {
     let ids = col.ids();
     let mut docs = Vec::new();
     for id in 1..=max_id {
@@ -395,6 +407,21 @@ pub async fn observe(col: &Collection, max_id: u64) -> Value {
         "maxid": col.max_document_id(),
         "state": format!("{:?}", col.state()),
     })
+}
+
+/// Observation without any document read (keeps the storage cache cold).
+pub async fn observe_light(col: &Collection) -> Value {
+    let full = observe_with(col, 0).await;
+    let mut o = json!({"e": "obs", "idx": full["idx"].clone(), "vsearch": full["vsearch"].clone()});
+    o["ids"] = json!(col.ids());
+    o["len"] = json!(col.len());
+    o["maxid"] = json!(col.max_document_id());
+    o["ext"] = json!(match col.get_extension("x") {
+        Some(Fv::U64(n)) => n,
+        _ => 0,
+    });
+    o["state"] = json!(format!("{:?}", col.state()));
+    o
 }
 
 /// Shared trace writer: NDJSON lines + incremental draining of backend events.
@@ -543,6 +570,16 @@ pub async fn exec_op(col: &Collection, op: &Value) -> Value {
             }
             Err(e) => fail(&mut ret, &e),
         },
+        "get" => {
+            let id = op["id"].as_u64().unwrap();
+            match col.get(id).await {
+                Ok(d) => {
+                    ret["ok"] = json!(true);
+                    ret["val"] = json!(d.try_into::<CDoc>().map(|c| val_of(&c)).unwrap_or(0));
+                }
+                Err(e) => fail(&mut ret, &e),
+            }
+        }
         "close" => match col.close().await {
             Ok(_) => ret["ok"] = json!(true),
             Err(e) => fail(&mut ret, &e),
